@@ -188,7 +188,24 @@ func aliasable(v interface{}) bool {
 		return true // a struct of slices: passing the same value shares the memory
 	}
 	k := reflect.ValueOf(v).Kind()
-	return k == reflect.Ptr || k == reflect.Map
+	// struct values (shares, CRPs: structs of polynomials) share their backing arrays when passed twice
+	return k == reflect.Ptr || k == reflect.Map || k == reflect.Struct
+}
+
+// PtrAlias reports whether out is a pointer to the type of the (struct) value a: the call f(a, b, &a).
+func PtrAlias(a, out interface{}) bool {
+	if a == nil || out == nil {
+		return false
+	}
+	ta := reflect.TypeOf(a)
+	return ta.Kind() == reflect.Struct && reflect.TypeOf(out) == reflect.PtrTo(ta)
+}
+
+// AddrOf returns a pointer to a copy of the struct value a (sharing all its backing arrays) and that copy.
+func AddrOf(a interface{}) (ptr interface{}, val interface{}) {
+	p := reflect.New(reflect.TypeOf(a))
+	p.Elem().Set(reflect.ValueOf(a))
+	return p.Interface(), p.Elem().Interface()
 }
 
 // Patterns enumerates the aliasing patterns the signature permits for these (prototype) operands:
@@ -207,6 +224,9 @@ func Patterns(r *Row, in []interface{}, out interface{}, names []string) []Patte
 		for i, a := range in {
 			if aliasable(a) && !contains(r.InPlace, i) && reflect.TypeOf(a) == reflect.TypeOf(out) && fits(a, out, r.OutMayBeLargerInput) {
 				ps = append(ps, Pattern{Name: "out==" + name(i), OutIs: i})
+				outIdx = append(outIdx, i)
+			} else if PtrAlias(a, out) && !contains(r.InPlace, i) {
+				ps = append(ps, Pattern{Name: "out==&" + name(i), OutIs: i})
 				outIdx = append(outIdx, i)
 			}
 		}
